@@ -4,6 +4,7 @@ from __future__ import annotations
 import ast
 
 from ..amatch import AM
+from ..flow import expand
 from ..algebra import NotPolynomial, Poly, ToPoly
 from ..effects import Effects
 from ..report import AnalysisError
@@ -48,33 +49,50 @@ def rule_a(ctx):
     ctx.need(len(sb) == 1 and len(sb[0][1]) == 1 and sb[0][1][0].isidentifier(), f"{f.qname}: the call self._subtract_background(<working image>) was not found")
     PROBE = sb[0][1][0]
 
-    def chain_for(branch):
-        """follow the value chain from the probe; returns list of stage names"""
-        by_arg = {}
-        for (nme, cond), (stage, args, node) in defs.items():
-            if all(c in branch or c[0] != "self.first_restoration_then_model" for c in cond) and not any(c[0] == "self.first_restoration_then_model" and c not in branch for c in cond):
-                by_arg.setdefault(args[0] if args else None, []).append((stage, nme, args))
-        cur = PROBE
-        out = []
-        for _ in range(10):
-            nxt = by_arg.get(cur, [])
-            nxt = [x for x in nxt if not x[0].startswith("_inspect")]
-            if len(nxt) != 1:
-                break
-            out.append((nxt[0][0], nxt[0][2]))
-            cur = nxt[0][1]
-        return out, cur
+    # the packaged array: first argument of the returned constructor calls (one name, defined once per order branch)
+    ret_args = {norm(r.value.args[0]) for r in ast.walk(f.node) if isinstance(r, ast.Return) and isinstance(r.value, ast.Call) and r.value.args}
+    ctx.need(len(ret_args) == 1, f"{f.qname}: the returns do not package one result ({sorted(ret_args)})")
+    RES = next(iter(ret_args))
+    order_if = [n for n in ast.walk(f.node) if isinstance(n, ast.If) and norm(n.test) == "self.first_restoration_then_model"]
+    ctx.need(len(order_if) == 1, f"{f.qname}: branch on self.first_restoration_then_model not found")
+
+    def chain_for(flag):
+        """Value chain of the result in the given order branch, innermost stage first, every once-bound local replaced by its definition."""
+        arm = order_if[0].body if flag else order_if[0].orelse
+        local = {}
+        for s_ in arm:
+            if isinstance(s_, ast.Assign) and len(s_.targets) == 1 and isinstance(s_.targets[0], ast.Name):
+                local[s_.targets[0].id] = s_.value
+        e = local.get(RES)
+        seen = set()
+        # substitute the arm's own temporaries, then the function-level once-bound locals
+        import copy
+
+        class Sub(ast.NodeTransformer):
+            def visit_Name(self, n):
+                if isinstance(n.ctx, ast.Load) and n.id in local and n.id != RES and n.id not in seen:
+                    seen.add(n.id)
+                    return self.visit(copy.deepcopy(local[n.id]))
+                return n
+        if e is None:
+            return [], None, None
+        e = expand(f.node, Sub().visit(copy.deepcopy(e)))
+        stages = []
+        cur = e
+        extra = None
+        while isinstance(cur, ast.Call) and norm(cur.func).startswith("self._") and cur.args:
+            stages.append((norm(cur.func)[5:], [norm(a) for a in cur.args]))
+            cur = cur.args[0]
+        return list(reversed(stages)), norm(cur), e
 
     for flag, tail in ((True, ["_restore_signal", "_convert_signal"]), (False, ["_convert_signal", "_restore_signal"])):
-        ch, last = chain_for({("self.first_restoration_then_model", flag)})
+        ch, start, e = chain_for(flag)
         names = [c[0] for c in ch]
-        ctx.ob(R, f.qname, f"restoration->model = {flag}: stages run in the documented order, each on the previous result", names == STAGES + tail,
-               f"chain from the probe: {names}", f.node)
+        ctx.ob(R, f.qname, f"restoration->model = {flag}: stages run in the documented order, each on the previous result", names == STAGES + tail and start == PROBE,
+               f"chain from `{start}`: {names}", f.node)
         conv = [a for st, a in ch if st == "_convert_signal"]
-        diff_name = next((nme for (nme, cond), (stage, args, node) in defs.items() if stage == "_subtract_background"), None)
-        ctx.ob(R, f.qname, f"restoration->model = {flag}: the model also receives the original difference", bool(conv) and len(conv[0]) == 2 and conv[0][1] == diff_name, str(conv), f.node)
-        rets = [norm(a) for r in ast.walk(f.node) if isinstance(r, ast.Return) and isinstance(r.value, ast.Call) for a in r.value.args[:1]]
-        ctx.ob(R, f.qname, f"restoration->model = {flag}: the end of the chain is what is returned", set(rets) == {last}, f"returned {rets}, chain ends in {last}", f.node)
+        ctx.ob(R, f.qname, f"restoration->model = {flag}: the model also receives the original difference", bool(conv) and len(conv[0]) == 2 and conv[0][1] == f"self._subtract_background({PROBE})", str(conv)[:200], f.node)
+        ctx.ob(R, f.qname, f"restoration->model = {flag}: the end of the chain is what is returned", e is not None, f"returned {RES}", f.node)
     ctx.ob(R, f.qname, "the order flag is the constructor option 'restoration -> model'", any(
         isinstance(s, ast.Assign) and norm(s.targets[0]) == "self.first_restoration_then_model" and norm(s.value) == "kwargs.get('restoration -> model', True)"
         for s in ast.walk(m.method(k, "__init__").node)), "", f.node)
